@@ -4,7 +4,7 @@ in scratch worktrees (suite passes with the patch, demo fails with it and passes
 import json, os, shutil, subprocess, sys
 from concurrent.futures import ThreadPoolExecutor
 
-SRCS = [("/tmp/wt", ""), ("/tmp/wt2", "2"), ("/tmp/wt3", "3"), ("/tmp/wt4", "4"), ("/tmp/wt5", "5"), ("/tmp/wt6", "6"), ("/tmp/wt7", "7")]
+SRCS = [("/tmp/wt", ""), ("/tmp/wt2", "2"), ("/tmp/wt3", "3"), ("/tmp/wt4", "4"), ("/tmp/wt5", "5"), ("/tmp/wt6", "6"), ("/tmp/wt7", "7"), ("/tmp/wt8", "8")]
 DST = "/verif/seeded"
 BASE_CMD = ["/venv/bin/python", "-m", "pytest", "-q", "-p", "no:cacheprovider", "--timeout=900", "-x"]
 
